@@ -566,6 +566,8 @@ func (s *Scanner) scanStatement(stmt ast.Statement, result *ScanResult) {
 		s.scanDeleteStatement(st, result)
 	case *ast.MergeStatement:
 		s.scanMergeStatement(st, result)
+	case *ast.ReplaceStatement:
+		s.scanReplaceStatement(st, result)
 	case *ast.SetOperation:
 		s.scanSetOperation(st, result)
 		return // its operands are statements and have just been scanned
@@ -639,6 +641,9 @@ func (s *Scanner) scanSelectStatement(stmt *ast.SelectStatement, result *ScanRes
 	for _, col := range stmt.Columns {
 		s.scanExpression(col, result, "select list")
 	}
+	for _, col := range stmt.DistinctOnColumns {
+		s.scanExpression(col, result, "DISTINCT ON")
+	}
 
 	// Check GROUP BY and ORDER BY items (ORDER BY SLEEP(5) is a classic probe)
 	for _, gb := range stmt.GroupBy {
@@ -657,6 +662,40 @@ func (s *Scanner) scanInsertStatement(stmt *ast.InsertStatement, result *ScanRes
 			s.scanExpression(val, result, "VALUES")
 		}
 	}
+
+	// Check the upsert clauses: ON CONFLICT ... DO UPDATE SET ... [WHERE ...]
+	// and ON DUPLICATE KEY UPDATE ...
+	if stmt.OnConflict != nil {
+		for _, upd := range stmt.OnConflict.Action.DoUpdate {
+			s.scanExpression(upd.Value, result, "SET value")
+		}
+		if stmt.OnConflict.Action.Where != nil {
+			s.scanExpression(stmt.OnConflict.Action.Where, result, "WHERE clause")
+		}
+	}
+	if stmt.OnDuplicateKey != nil {
+		for _, upd := range stmt.OnDuplicateKey.Updates {
+			s.scanExpression(upd.Value, result, "SET value")
+		}
+	}
+
+	s.scanReturning(stmt.Returning, result)
+}
+
+// scanReturning analyzes the RETURNING list of a data-modifying statement.
+func (s *Scanner) scanReturning(returning []ast.Expression, result *ScanResult) {
+	for _, expr := range returning {
+		s.scanExpression(expr, result, "RETURNING")
+	}
+}
+
+// scanReplaceStatement analyzes MySQL REPLACE INTO for injection patterns.
+func (s *Scanner) scanReplaceStatement(stmt *ast.ReplaceStatement, result *ScanResult) {
+	for _, row := range stmt.Values {
+		for _, val := range row {
+			s.scanExpression(val, result, "VALUES")
+		}
+	}
 }
 
 // scanUpdateStatement analyzes UPDATE for injection patterns.
@@ -670,6 +709,8 @@ func (s *Scanner) scanUpdateStatement(stmt *ast.UpdateStatement, result *ScanRes
 	for _, assignment := range stmt.Assignments {
 		s.scanExpression(assignment.Value, result, "SET value")
 	}
+
+	s.scanReturning(stmt.Returning, result)
 }
 
 // scanDeleteStatement analyzes DELETE for injection patterns.
@@ -678,6 +719,8 @@ func (s *Scanner) scanDeleteStatement(stmt *ast.DeleteStatement, result *ScanRes
 	if stmt.Where != nil {
 		s.scanExpression(stmt.Where, result, "WHERE clause")
 	}
+
+	s.scanReturning(stmt.Returning, result)
 }
 
 // scanMergeStatement analyzes MERGE for injection patterns: the ON condition,
